@@ -96,6 +96,8 @@ package jet
 //@   nopanic
 //@   callsite os.Stat 0 requires [exists-and-open-use-the-same-path] name == FJoin2(l.dir, caller.templatePath)
 //@   check [directories-do-not-exist] result ==> lastret("os.Stat", 1) == nil
+//@   check [the-file-system-is-asked-exactly-once] {C19} ncalls("os.Stat") == 1
+//@   check [exactly-the-regular-files-below-the-root-exist] {C19} lastret("os.Stat", 1) == nil ==> ncalls("(fs.FileInfo).IsDir") == 1 && result == !lastret("(fs.FileInfo).IsDir", 0)
 //@   callsite (os.FileInfo).IsDir count 1
 
 //@ func (*OSFileSystemLoader).Open
